@@ -98,6 +98,32 @@ fn main() {
 			jrsim::proc::cleanup_process_scratch();
 			std::process::exit(code);
 		}
+		"random" => {
+			// debug aid: print random programs with their outcome and time
+			use jrsim::{pool, randprog, rng::Rng};
+			let n: u64 = args.get(2).and_then(|s| s.parse().ok()).unwrap_or(20);
+			let mut rng = Rng::new(seed);
+			let mut classes = std::collections::BTreeMap::new();
+			let mut slow = 0.0f64;
+			for _ in 0..n {
+				let p = randprog::gen_random(&mut rng);
+				let t = Instant::now();
+				let p2 = p.clone();
+				let o = std::thread::Builder::new().stack_size(16 << 20).spawn(move || pool::Host::new().run(&p2, None)).expect("spawn").join();
+				let dt = t.elapsed().as_secs_f64();
+				slow = slow.max(dt);
+				match o {
+					Ok(o) => {
+						*classes.entry(o.class.clone()).or_insert(0u64) += 1;
+						if n <= 40 || dt > 0.05 {
+							println!("{dt:.4}s {} {:?} <- {}", o.class, o.text.chars().take(60).collect::<String>(), p.code.chars().take(200).collect::<String>());
+						}
+					}
+					Err(_) => println!("PANIC <- {}", p.code),
+				}
+			}
+			println!("classes: {classes:?} slowest {slow:.3}s");
+		}
 		"families" => {
 			// timing/debug aid: run every family a few times on a fresh host
 			use jrsim::{pool, rng::Rng};
